@@ -181,6 +181,39 @@ def shard(args):
     return part
 
 
+def order_shard(args):
+    """Declaration-order family: the two densest 4-variable graphs classes (K4 minus an edge, K4: induced width 3, a child with two
+    separator variables above its parent) with EVERY order in which the constraints can be declared (it fixes the dimension order
+    of the UTIL tables), 3 table rotations, min and max; one in-place execution per canonical schedule (first, last)."""
+    idx, n = args
+    part = Part()
+    names4 = ["v0", "v1", "v2", "v3"]
+    pairs4 = list(itertools.combinations(names4, 2))
+    menu4 = [gen.T3_BIN[2], gen.T3_BIN[0], [[1, 0], [0, 5]]]
+    i = 0
+    for r in (5, 6):
+        for edges in itertools.combinations(pairs4, r):
+            for perm in itertools.permutations(range(r)):
+                i += 1
+                if i % n != idx:
+                    continue
+                for k in range(3):
+                    for mode in ("min", "max"):
+                        spec = {"vars": {v: [0, 1] for v in names4}, "cons": [{"name": f"c{j}", "scope": list(edges[j]), "table": menu4[(j + k) % 3]} for j in perm], "mode": mode}
+                        for sched in ("first", "last"):
+                            world, shared, _ = ls_common.build_world(spec, "dpop", {})
+                            ds = DpopSpec(spec)
+                            st = netx.run_single(world, ds, sched, lambda key, what, w, h: part.violation(key, what, {"spec": spec, "history": netx.unroll(h)}))
+                            part.count("evaluations")
+                            part.count("declaration_order_runs")
+                            part.count("transitions", st["steps"])
+                            part.count("states", st["steps"] + 1)
+                            part.count("traces")
+                        part.nontriv(("order", edges, perm, k, mode))
+                part.outcome(("order", edges, perm))
+    return part
+
+
 def run(ctx):
     ctx.level = "model_checking"
     ctx.rule = (
@@ -189,7 +222,9 @@ def run(ctx):
         "arity 1-3 incl. disconnected and isolated variables, 0/1 cost tables - all tables for single-constraint shapes, menus otherwise - "
         "own value costs on/off, min and max, plus 3-valued, str-valued, >2^31, negative/float families) ALL start orders and delivery "
         "interleavings are explored with state caching; on every maximal path: every computation reported finished, values are domain "
-        "members, and the reference cost of the selected assignment equals the brute-force optimum. evaluations = instances; "
+        "members, and the reference cost of the selected assignment equals the brute-force optimum. Plus a declaration-order family: K4 and the "
+        "six K4-minus-an-edge graphs with EVERY order of declaring their constraints (1440 orders), 3 table rotations, min/max, one in-place "
+        "execution per canonical schedule (first, last). evaluations = instances (+ declaration-order runs); "
         "non-trivial = the instance has a sub-optimal assignment"
     )
     ctx.assumptions = [
@@ -198,6 +233,7 @@ def run(ctx):
     ]
     n = 64
     ctx.pmap(shard, ctx.rotate([(i, n, ctx.tier) for i in range(n)]))
+    ctx.pmap(order_shard, [(i, 16) for i in range(16)])
 
 
 def replay(case):
